@@ -1058,7 +1058,7 @@ impl<'a> Lowerer<'a> {
     }
 
     fn lower_record_fields(&self, node: GreenNodeId) -> Vec<crate::ast::RecordField> {
-        let (mut fields, _) = self
+        let (fields, _) = self
             .arena
             .children(node)
             .map_or((Vec::new(), None), |children| {
@@ -1087,7 +1087,6 @@ impl<'a> Lowerer<'a> {
                 )
             });
 
-        fields.sort_by(|a, b| a.name.as_ref().cmp(b.name.as_ref()));
         fields
     }
 
